@@ -72,6 +72,9 @@ func verifRandWord(r *rand.Rand) uint64 {
 	case 3:
 		return r.Uint64() | r.Uint64() | r.Uint64()
 	case 4:
+		if r.Intn(2) == 0 {
+			return ^uint64(0) &^ (uint64(1) << uint(r.Intn(64)))
+		}
 		return uint64(1) << uint(r.Intn(64))
 	default:
 		return r.Uint64()
